@@ -25,9 +25,15 @@ FLAG_COQ = {"": "FlNone", "O": "FlO", "o": "Flo", "j": "Flj", "s": "Fls", "W": "
 FUEL = 60
 
 PURE_ELEMENTS = list("+-*N›‹d¬=<>:D$_^!Ww\"JLhtfṘ∑n")
+# the second table of the core (Values.elem_more): constants, whole-stack rotations, over, bifurcate, Python's and/or,
+# comparisons, numeric monads, extremes, head/tail extraction, ranges, product, mirror, palindromise, prepend, any/all,
+# not-one, all-equal, zip, uniquify, stringify
+MORE_ELEMENTS = list("₀₁₄₆₇₈¤ð¶u„‟ȮḂ∧∨⟑≤≥≠⌐∷₂ȧ²%Gg∴∵ḣṫḢṪɾʀɽʁΠm∞paAċ≈zZUS")
+PURE_ELEMENTS = PURE_ELEMENTS + MORE_ELEMENTS
 EFFECT_ELEMENTS = list(",…£¥?")
 CALL_ELEMENTS = list("MF†")
 MOD1 = list("v&~ßƒɖ")
+ELEMENT_SET = set(PURE_ELEMENTS + EFFECT_ELEMENTS + CALL_ELEMENTS + ["ṡ"])
 MOD2 = list("₌₍")
 
 PREAMBLE = ("From Coq Require Import List NArith ZArith Bool.\n"
@@ -666,6 +672,38 @@ MEANING = {0: "agree", 1: "DIFFER", 2: "outside-domain(EStuck)", 3: "out-of-fuel
 UNQUOTED_CLS = "C01:generated-lazy-list-prints-strings-unquoted"
 
 
+# element x argument matrix: every element of the core applied to every combination of argument values of every kind
+# (the overloads of an element are selected by the kinds of its arguments)
+MATRIX_VALUES = ["0", "1", "7", "12", "5N", "120", "1001", "``", "`a`", "`Ab c`", "`12`", "`aXa`", "⟨⟩", "⟨1|2|3⟩", "⟨3|1|2|1⟩",
+                 "⟨`a`|`b`|`a`⟩", "⟨⟨1|2⟩|⟨3⟩|4⟩", "⟨0|`x`|⟨⟩⟩", "⟨7⟩", "⟨2|2⟩", "⟨1|0⟩", "⟨``|0⟩"]
+MATRIX_DYAD_VALUES = ["0", "3", "12", "5N", "``", "`a`", "`Ab`", "`3`", "⟨⟩", "⟨1|2|3⟩", "⟨`a`|2⟩", "⟨⟨1|2⟩|3⟩", "⟨4⟩"]
+DYADS = set("+-*=<>$\"J∧∨⟑≤≥≠%∴∵pZ")
+NILADS = set("^!Wn?₀₁₄₆₇₈¤ð¶u„‟Ȯ¥")
+
+
+def matrix_items(env):
+    items = []
+    every = [e for e in PURE_ELEMENTS + EFFECT_ELEMENTS if e not in "n"]
+    for e in every:
+        if e in DYADS:
+            for a in MATRIX_DYAD_VALUES:
+                for b in MATRIX_DYAD_VALUES:
+                    items.append((f"8 {a} {b} {e}W", [], ""))
+        elif e in NILADS:
+            for st in ["", "4", "4 `a`", "1 2 ⟨3⟩"]:
+                items.append((f"{st} {e}W", ["6", "7"], ""))
+                items.append((f"{st} {e}W", [], ""))
+                items.append((f"{st} λ{e}W;†", [], ""))
+        else:
+            for a in MATRIX_VALUES:
+                items.append((f"8 {a} {e}W", [], ""))
+            items.append((f"{e}W", ["[3,4]"], ""))
+            items.append((f"3 λ{e};†W", [], ""))
+    if not env.thorough:                      # the quick tier runs a seeded half of the matrix
+        items = [it for k, it in enumerate(items) if (k + env.seed) % 2 == 0]
+    return items
+
+
 def build_items(env):
     rng = env.rng
     g = CoreGen(rng)
@@ -687,11 +725,12 @@ def build_items(env):
     for i, s in enumerate(progs_):        # generated: flags in rotation + one more random run
         items.append((s, INPUT_SETS[rng.randrange(len(INPUT_SETS))], FLAGS[i % len(FLAGS)]))
         items.append((s, INPUT_SETS[rng.randrange(len(INPUT_SETS))], rng.choice(FLAGS)))
+    items += matrix_items(env)
     return list(dict.fromkeys((s, tuple(i), f) for s, i, f in items)), progs_
 
 
 def run(env):
-    env.rule = ("programs of the core grammar (generator CoreGen: number and string literals (`..`, two-character, character, compressed), the 37 core "
+    env.rule = ("programs of the core grammar (generator CoreGen: number and string literals (`..`, two-character, character, compressed), the 87 core "
                 "elements with their number / string / list overloads, variables / named loop variables / function definitions anywhere incl. inside lambdas, functions and list items "
                 "(Python scoping: locals, closures over parameters and locals, unbound reads, recursion and mutual recursion by name, redefinition), variables and function definitions anywhere incl. inside lambdas / functions / list items (Python scoping: locals, closures over "
                 "parameters and locals, unbound reads, recursion and mutual recursion by name, redefinition), function definitions / "
@@ -760,6 +799,7 @@ def run(env):
     dist = {}
     registered = {k.get("class") for k in env.known} | {c for k in env.known for c in k.get("classes", [])}
     unquoted = []
+    per_element = {}
     differing = {}
     flags_seen = {}
     constructs = {}
@@ -813,6 +853,9 @@ def run(env):
                           f"error differ; observed {obs}", cls=None)
         if m != r:
             env.proof_broken("C01_compile_correct contradicted by evaluation", f"{inp}: machine code {m}, reference code {r}")
+        if (m, r) in ((0, 0), (2, 2)):
+            for ch in set(src) & ELEMENT_SET:
+                per_element.setdefault(ch, [0, 0])[0 if m == 0 else 1] += 1
         if m == 0 and r == 0:
             flags_seen[fl] = flags_seen.get(fl, 0) + 1
             used = {v for k, v in STRUCT_CHARS.items() if k in src}
@@ -838,13 +881,17 @@ def run(env):
     env.note("outcomes", dist)
     env.note("agreeing_runs_per_flag_set", flags_seen)
     env.note("agreeing_runs_per_construct", constructs)
+    env.note("runs_per_element[agree, outside-domain]", {k: per_element.get(k, [0, 0]) for k in sorted(ELEMENT_SET)})
+    never = sorted(k for k in ELEMENT_SET if per_element.get(k, [0, 0])[0] == 0)
+    if never:
+        env.proof_broken("core elements whose model was never compared with the implementation in this run", "".join(never))
     env.note("programs", {"seeds": len(SEEDS), "generated": len(generated), "max_depth": env.budget(3, 4), "fuel": FUEL})
     for s in SEEDS[:3] + generated[:5]:
         env.sample({"program": s})
     env.sample({"theorem": "C01_compile_correct: core_ok_list false p = true -> exec cf fuel false p s = eval cf fuel p s"})
     env.assume("CPython executes the emitted lines as Model/Machine.v says (the principal modelled-not-verified link; validated on every "
                "run by correspondence (1), and the emitted text itself by (3) against Model/Transpile.v)")
-    env.assume("the semantics of the 37 core elements and of the 8 modifier bodies (Model/Values.v) is shared by both evaluators: its fidelity is "
+    env.assume("the semantics of the 87 core elements and of the 8 modifier bodies (Model/Values.v) is shared by both evaluators: its fidelity is "
                "checked by correspondence only; their template texts and arities are a proof obligation over the regenerated table (C01_templates)")
     env.assume("lazy evaluation: maps / filters / vectorised calls are evaluated eagerly in the model; where that could be observed (a lazily "
                "applied body that prints, reads or writes register / variables / input, or function values among the arguments) and where a "
